@@ -61,6 +61,18 @@ Proof.
   apply c18_iff; auto. eapply tree_eq_trans; eauto.
 Qed.
 
+(** the edit made on the FIRST argument's side (the code's traversal is driven by the
+    first argument, so this is a separate obligation on the model, here reduced by symmetry) *)
+Lemma c18_single_edit_left a a' b :
+  tree_wf (erase a) -> tree_wf (erase a') -> tree_wf (erase b) ->
+  is_equal a b = true -> one_edit (erase a) (erase a') ->
+  is_equal a' b = false /\ is_equal b a' = false.
+Proof.
+  intros Wa Wa' Wb E O.
+  assert (E' : is_equal b a = true) by (rewrite is_equal_sym; auto).
+  destruct (c18_single_edit b a a' Wb Wa Wa' E' O) as [F1 F2]. split; assumption.
+Qed.
+
 (** the edit may equally be made on the first argument's side *)
 Lemma c18_single_edit_spec b b' : tree_wf b -> one_edit b b' -> ~ tree_eq b b'.
 Proof. intros W O; apply one_edit_not_eq; auto. Qed.
